@@ -61,6 +61,12 @@ public class BigField {
     for (int i = 0; i < n; i++) if (x.testBit(i)) r = r.setBit(n - 1 - i);
     return sv(r);
   }
+  // spread the bits of j: bit i of j moves to position i * spacing
+  public static Value BNDilute(Value j, Value spacing) {
+    BigInteger x = BigInteger.valueOf(in(j)); int sp = in(spacing); BigInteger r = BigInteger.ZERO;
+    for (int i = 0; i < x.bitLength(); i++) if (x.testBit(i)) r = r.setBit(i * sp);
+    return sv(r);
+  }
   public static Value BNLowBits(Value a, Value nbits) {
     return sv(bi(a).mod(BigInteger.ONE.shiftLeft(in(nbits)))); }
 
